@@ -112,9 +112,16 @@ impl Workspace {
   /// Removes a definition from workspace, deletes all model evaluators,
   /// switches a workspace to state `STASHING`.
   pub fn remove(&mut self, namespace: &str, name: &str) {
-    self.definitions_by_namespace.remove(namespace);
-    self.definitions_by_name.remove(name);
-    self.definitions.retain(|d| d.namespace() != namespace && d.name() != name);
+    let definitions_by_namespace = &mut self.definitions_by_namespace;
+    let definitions_by_name = &mut self.definitions_by_name;
+    self.definitions.retain(|d| {
+      let retained = d.namespace() != namespace && d.name() != name;
+      if !retained {
+        definitions_by_namespace.remove(d.namespace());
+        definitions_by_name.remove(d.name());
+      }
+      retained
+    });
     self.clear_model_evaluators();
   }
   /// Replaces a definition in workspace, deletes all model evaluators,
